@@ -147,9 +147,9 @@ class DefaultFunctionEstimator(FunctionEstimator):
         norm = float(np.count_nonzero(weights > 0))
         norm = norm / (norm - 1)
         mean = np.dot(functions, weights)
-        stddev = np.sqrt(
-            norm * np.dot((functions - mean[..., np.newaxis]) ** 2, weights)
-        )
+        # Values without weight must not have any effect, not even by overflow:
+        deviations = np.where(weights != 0, functions - mean[..., np.newaxis], 0.0)
+        stddev = np.sqrt(norm * np.dot(deviations**2, weights))
         return norm, mean, stddev
 
 
